@@ -99,7 +99,7 @@ FUZZ = {
     "xfer": {"nodes": [1, 2, 3], "voters": [1, 2, 3], "nonvoters": [], "eager": E3, "steps": 160, "crash": 0.15, "fail": 0.3, "reconfig": 0, "snapshot": 0, "maxCmds": 10, "transfer": 1.0},
     "xferconf": {"nodes": [1, 2, 3, 4], "voters": [1, 2, 3], "nonvoters": [], "eager": E3, "steps": 200, "crash": 0.1, "fail": 0.3, "reconfig": 0.6, "snapshot": 0.3, "maxCmds": 10, "transfer": 0.8, "fair": True},
     # short batches (2 entries per request): lagging followers, several requests in flight, abandoned connections
-    "batch": {"nodes": [1, 2, 3], "voters": [1, 2, 3], "nonvoters": [], "eager": {"ldr": True, "poll": True, "fsm": False, "maxAppend": 2}, "steps": 220, "crash": 0.1, "fail": 0.8, "reconfig": 0, "snapshot": 0, "maxCmds": 14},
+    "batch": {"nodes": [1, 2, 3], "voters": [1, 2, 3], "nonvoters": [], "eager": {"ldr": True, "poll": True, "fsm": False, "maxAppend": 2}, "steps": 220, "crash": 0.1, "fail": 0.8, "reconfig": 0, "snapshot": 0, "maxCmds": 14, "scale": 2.5},
     # partitions: one node at a time is cut off (dials / RPCs fail, nothing delivered), the rest goes on, snapshots and compaction meanwhile
     "part": {"nodes": [1, 2, 3], "voters": [1, 2, 3], "nonvoters": [], "eager": E3, "steps": 260, "crash": 0.05, "fail": 0.2, "reconfig": 0, "snapshot": 1.2, "maxCmds": 18, "partition": 1.0},
     # client semantics: updates, reads, barriers and dirty reads on every node, leader changes, crashes, partitions
@@ -117,7 +117,8 @@ def plan(preds, mcq, mct, attacks, sim=("core",), level="model_checking", assump
     sims = {"core": (SIM_CORE, SIM_CORE_T), "conf": (SIM_CONF, SIM_CONF_T), "snap": (SIM_SNAP, SIM_SNAP_T), "xfer": (SIM_XFER, SIM_XFER_T), "client": (SIM_CLIENT, SIM_CLIENT_T)}
     return {"level": level, "preds": preds, "mc": {"quick": mcq, "thorough": mcq + mct},
             "sims": {"quick": [sims[k][0] for k in sim], "thorough": [sims[k][1] for k in sim]},
-            "fuzz": {"quick": [dict(FUZZ[k], runs=runs[0]) for k in fuzz], "thorough": [dict(FUZZ[k], runs=runs[1]) for k in fuzz]},
+            "fuzz": {"quick": [dict(FUZZ[k], runs=int(runs[0] * FUZZ[k].get("scale", 1))) for k in fuzz],
+                     "thorough": [dict(FUZZ[k], runs=int(runs[1] * FUZZ[k].get("scale", 1))) for k in fuzz]},
             "attacks": attacks, "assumptions": list(assumptions)}
 
 
@@ -134,9 +135,9 @@ PLANS = {
     "C08": plan(["C08_OneVoterDelta", "C08_ConfigOnlyWhenSafe", "C19_LatestIsNewest", "C01_ElectionSafety", "C02_CommittedAgree", "C02_CommittedStable"], [CONF_Q12, CONF_Q21], [CONF_T], ["G_ConfigCommittedFirst", "G_OwnTermBeforeConfig"], sim=("conf",)),
     "C11": plan(["C11_OnlyVotersCampaign", "C11_OnlyVotersLead", "C11_PromoteAfterRound", "C11_StopOnlyWhenRemoved", "C11_DemotedLeaderStepsDown", "C06_MajorityDurable"],
                 [CONF_Q12, CONF_Q21], [CONF_T], ["G_NonVoterNoElection", "G_PromoteAfterRound", "G_StepDownWhenDemoted", "G_MajorityOfVoters", "FixD14"], sim=("conf",)),
-    "C09": plan(["C09_SnapshotCommitted", "C09_NoViewInvalidation", "C03_FsmIsCommittedPrefix", "C03_FsmNotAhead"], [SNAP_Q], [SNAP_T], ["FixD5", "FixD11", "FixD19"], sim=("snap",), fuzz=("snap", "part")),
+    "C09": plan(["C09_SnapshotCommitted", "C09_NoViewInvalidation", "C03_FsmIsCommittedPrefix", "C03_FsmNotAhead", "C02_CommittedAgree", "C04_LogMatching", "C19_Ordered"], [SNAP_Q], [SNAP_T], ["FixD5", "FixD11", "FixD19"], sim=("snap",), fuzz=("snap", "part")),
     "C12": plan(["C12_LabelOK"], [SNAP_Q], [SNAP_T], ["FixD4", "FixD20"], sim=("snap", "conf"), fuzz=("snap", "conf", "fairconf")),
-    "C19": plan(["C19_Ordered", "C19_LatestIsNewest", "C19_Monotone"], [REPL_Q3, REPL_Q2], [REPL_T3, REPL_T2], ["G_ConsistencyCheck", "G_FollowerOwnTerm", "FixD19", "FixD22"], sim=("core", "conf"), fuzz=("core", "conf", "batch", "part")),
+    "C19": plan(["C19_Ordered", "C19_LatestIsNewest", "C19_Monotone"], [REPL_Q3, REPL_Q2], [REPL_T3, REPL_T2], ["G_ConsistencyCheck", "G_FollowerOwnTerm", "FixD19", "FixD22", "G_CommitMonotone"], sim=("core", "conf"), fuzz=("core", "conf", "batch", "part")),
     # C10: crash at every hook point inside the handlers (image of the directory at that instant), restart on the image, rejoin
     "C10": plan(["C10_RestartOK", "C01_ElectionSafety", "C02_CommittedAgree", "C02_LeaderCompleteness", "C02_CommittedStable",
                  "C03_FsmIsCommittedPrefix", "C03_FsmNotAhead", "C04_LogMatching", "C05_TermMonotone", "C05_OneVotePerTerm"],
@@ -155,7 +156,7 @@ PLANS = {
                 fuzz=("xfer", "xferconf"), runs=(128, 1600)),
     # C17: (a) leader stickiness as an action property; (b) convergence under a fair, fault-free continuation of random fault histories
     "C17": plan(["C17_LeaderStickiness", "C17_Converges"], [ELECT_Q1, ELECT_2N], [ELECT_Q, ELECT_T], ["FixD1", "G_LeaderKnown", "D21"], sim=("core",),
-                fuzz=("fair", "fairconf"), runs=(128, 1600)),
+                fuzz=("fair", "fairconf", "xfer"), runs=(128, 1600)),
 }
 
 
